@@ -40,6 +40,9 @@ def build(rng, tier):
         trailing = [rng.choice([1, 2, 3]) for _ in range(rng.choice([1, 1, 2, 3, 4]))]
         if rng.random() < 0.1:
             trailing[rng.randrange(len(trailing))] = 0
+        elif rng.random() < 0.15:
+            # many lanes along the last axis (blocked / chunked lane loops must not lose a remainder)
+            trailing = trailing[:1] + [rng.choice([9, 10, 11, 13, 17, 19])] if rng.random() < 0.5 else [rng.choice([9, 10, 11, 13, 17, 19])]
         L = gen.shape_size(trailing)
         qshape = rng.choice([[3], [2, 2], [], [1, 3]])
         nq = gen.shape_size(qshape)
@@ -103,6 +106,14 @@ def build(rng, tier):
                         flat[big] = flat[(n - 1) * L + big] = 1e9
         else:
             bc, lanes = None, None
+        dirty = None
+        if S == "F" and L >= 2 and near is None and rng.random() < 0.2:
+            # one lane holds non-finite / overflowing samples (interior rows only, so a periodic end test is not affected):
+            # every other lane must be what it is without that lane
+            dirty = rng.randrange(L)
+            for i in range(1, n - 1) if n > 2 else []:
+                if rng.random() < 0.7:
+                    flat[i * L + dirty] = rng.choice([float("nan"), float("inf"), float("-inf"), 1.5e308, -1.7e308])
         def mk(sh, fl, b, dt="dyn", nd_=False):
             # the n-d interpolator is exercised with every data layout (permuted / reversed trailing axes included) and, for a
             # third of the groups, through interp_array_into with a buffer of another layout
@@ -123,6 +134,9 @@ def build(rng, tier):
             lines.append(mk([n], col, lane_bc(bc, lanes, j) if kind == "spl" else None))
         variants = []
         j = rng.randrange(L) if L else 0
+        if dirty is not None:
+            singles = [(q, i_) for q, i_ in singles if q != dirty]
+            j = rng.choice([q for q in range(L) if q != dirty])
         if near is not None:
             groups.append((nd, singles, [], L, nq, ("near", near)))
             continue
